@@ -353,6 +353,9 @@ def compute_golden_key(key: str) -> Dict[str, Any]:
     plain: fresh get_converter() (default configuration) or a user converter with the given options;
     pre:V  user converter customised with variant V before get_converter; post:V customised after."""
     conv = Z["conv"]
+    rev = key.startswith("rev:")
+    if rev:
+        key = key[4:]
     custom, dvs, feks, xs = key.split("|")
     dv, fek, x = dvs == "dv=1", feks == "fek=1", xs[2:]
     if dv and not fek and x == "-" and custom == "plain":
@@ -364,6 +367,13 @@ def compute_golden_key(key: str) -> Dict[str, Any]:
         c = conv.get_converter(base)
     if custom.startswith("post:"):
         customise(c, custom[5:])
+    if rev:
+        # the same lone converter asked in the opposite order (hook matrix first, last item first): what a
+        # converter answers must not depend on what it was asked before
+        nS_, nB_ = len(battery.STRUCT), len(battery.BUILD)
+        use_r = {k: do_use(c, k) for k in reversed(range(nS_))}
+        build_r = {k: do_build(c, k) for k in reversed(range(nB_))}
+        return {"use": [use_r[k] for k in range(nS_)], "build": [build_r[k] for k in range(nB_)]}
     return {"use": [do_use(c, k) for k in range(len(battery.STRUCT))], "build": [do_build(c, k) for k in range(len(battery.BUILD))]}
 
 
@@ -1494,10 +1504,18 @@ def main(argv: List[str]) -> int:
     config_viol: List[Dict[str, str]] = []
     try:
         keys = all_golden_keys()
-        outs = [r for _, r in core.run_pool(golden_task, keys + keys[:1], per_task_timeout=400.0)]
+        rev_keys = ["rev:" + keys[0], "rev:" + gkey(None, False, True), "rev:" + gkey("pre:position", True, False)]
+        outs = [r for _, r in core.run_pool(golden_task, keys + keys[:1] + rev_keys, per_task_timeout=400.0)]
         gold_all = dict(outs[: len(keys)])
         Z["golden"] = gold_all  # inherited by the workers of the pools forked below
-        again = outs[-1][1]
+        again = outs[len(keys)][1]
+        for rk, rv in outs[len(keys) + 1:]:
+            for part, names in (("use", [b[0] for b in battery.STRUCT]), ("build", [b[0] for b in battery.BUILD])):
+                for i, (a_, b_) in enumerate(zip(gold_all[rk[4:]][part], rv[part])):
+                    if tuple(a_) != tuple(b_):
+                        config_viol.append({"sig": f"order-differs:{a_[0]}->{b_[0]}",
+                                            "msg": f"a lone [{rk[4:]}] converter gives {tuple(a_)} for {names[i]} when asked in battery order but {tuple(b_)} when asked in the opposite order"})
+                        break
         if core.digest(again) != core.digest(gold_all[keys[0]]):
             rep.harness_error("golden outcomes are not reproducible (two lone fresh converters disagree with each other)")
         # detailed validation on/off must not change verdicts or values (exception types may differ)
